@@ -1015,16 +1015,16 @@ def run(ctx):
         replay_inputs(ctx, work, corpus_inputs())
         spec_cases(ctx, rng)
         cases = []
-        for _ in range(ctx.budget(300, 3000)):
+        for _ in range(ctx.budget(300, 2200)):
             cases.append(build_case(work, rng, candidates))
-        for _ in range(ctx.budget(200, 2000)):
+        for _ in range(ctx.budget(200, 1500)):
             cases.append(start_case(work, rng, candidates))
-        for _ in range(ctx.budget(150, 1500)):
+        for _ in range(ctx.budget(150, 1000)):
             cases += split_case(work, rng)
-        for _ in range(ctx.budget(200, 2000)):
+        for _ in range(ctx.budget(200, 1500)):
             cases.append(lig_case(work, rng, candidates))
         run_batch(ctx, cases)
-        for mode, count in (("split", ctx.budget(20, 150)), ("lig", ctx.budget(30, 250)), ("start", ctx.budget(10, 60))):
+        for mode, count in (("split", ctx.budget(20, 100)), ("lig", ctx.budget(30, 180)), ("start", ctx.budget(10, 40))):
             for _ in range(count):
                 e2e_case(ctx, work, rng, mode)
     finally:
